@@ -369,6 +369,35 @@ def c07(work, tier, seed):
                                   lambda v: "%s/%s/%s/concurrent-users" % (v["guard"], v["a"], v["b"]), "concurrent set-up of tunnels of different users",
                                   owns=lambda v: v["guard"] == "G_C05_TunnelUserIsTheConfirmedOne", jobs=6, tag="c07-users")
     out.violations += uout.violations
+    # an identifier that is used AGAIN after its tunnel has ended - by the same user and by another one, authenticated at
+    # the endpoint (no token), over either transport, on one gateway: the new tunnel is a new tunnel (its own user, its own
+    # substituted entry allowed, the previous user's refused)
+    import fam_tunnel as ft
+    reuse = []
+    for gi, tr in enumerate(["ws", "legacy", "ws"] if tier == "quick" else ["ws", "legacy"] * 6):
+        cfgr = {"tokenAuth": False, "smartCard": False, "auth": "ntlm", "users": "ntlm", "sel": ["roundrobin", "unsigned"][gi % 2], "hosts": [["H127", "PH", ":", "PA"]], "verifyIp": True, "idle": 0}
+        cid = "{7a1c7a52-0000-4000-8000-%012d}" % gi
+        for n, (user, asks) in enumerate([("7", "7"), ("8", "8"), ("8", "7"), ("7", "8"), ("7", "7")]):
+            steps = [{"k": "hs", "cls": "valid", "caps": 0, "major": 1, "minor": n}, {"k": "create", "cls": "valid", "cookie": "none"}, {"k": "auth", "cls": "valid"},
+                     {"k": "chan", "cls": "valid", "name": ["H127", asks], "port": "PA"}, {"k": "data", "cls": "valid", "n": 8}]
+            reuse.append({"id": "ri%02d-%d" % (gi, n), "origin": "reused-identifier", "cfg": cfgr, "transport": tr, "grp": "reuse-%d" % gi,
+                          "tun": {"user": user, "hostName": ["H127", user], "hostPort": "PA", "entry": ["H127", "PH", ":", "PA"], "cid": cid}, "steps": steps})
+    r1 = ft.run_scripts(work, reuse, seed, tier, tag="c07-reuse", jobs=4)
+    if r1["viol"]:
+        r2 = ft.run_scripts(work, reuse, seed, tier, tag="c07-reuse-confirm", jobs=4)
+        again = {(v["guard"], v["script"]) for v in r2["viol"]}
+        conf = [v for v in r1["viol"] if (v["guard"], v["script"]) in again]
+        if not conf:
+            raise HarnessError("C07 (reused identifier) violations did not reproduce: %s" % sorted({v["guard"] for v in r1["viol"]})[:5])
+        seen_sig = set()
+        for v in conf:
+            sig = "%s/%s.%s/%s/%s/reused-identifier" % (v["guard"], v["k"], v["cls"], v["phase"], v["transport"])
+            if sig in seen_sig:
+                continue
+            seen_sig.add(sig)
+            out.violations.append({"signature": sig, "what": "%s violated on a tunnel whose connection identifier an earlier, ended tunnel had used (%s packet, phase %s, %s)" % (v["guard"], v["k"], v["phase"], v["transport"]),
+                                   "guard": v["guard"], "script": v["script"], "event": v["event"], "replay": "VERIF_SEED=%d ./bin/check C07 --tier %s" % (seed, tier)})
+    out.coverage["reused_identifier"] = {"scripts": len(reuse), "evaluations": r1["result"].get("lines")}
     out.coverage["concurrent_users"] = {"scripts": len(users), "evaluations": uout.coverage.get("evaluations")}
     out.violations += pout.violations
     out.coverage["pairing"] = {"cells": [c for c in pout.coverage.get("cells", []) if "pair-" in c], "evaluations": pout.coverage.get("evaluations")}
